@@ -215,7 +215,7 @@ def _unlink_sweep(ctx, spec, ai, bi, destroy, cache):
 
 
 def small_specs():
-    classes = list(zoo.EDGE_CLASSES)
+    classes = list(graphs._ECLS)
     placements = [(0, 1), (1, 0), (0, 0)]
     for c in classes:
         for p in placements:
@@ -249,7 +249,7 @@ def run(ctx):
                 unlink_sweep(ctx, spec, ai, bi, destroy=bool(n % 2), cache=bool(n % 3))
     ngraphs = 150 if ctx.tier == "quick" else 1500
     for n in range(ngraphs):
-        spec = graphs.rand_spec(rng, nmax=5, mmax=10, uni_mode="none", self_p=0.2)
+        spec = graphs.rand_spec(rng, nmax=5, mmax=10, uni_mode="none", self_p=0.2, ecls=graphs.ECLS_X)
         g = graphs.build(spec)
         if n < 2:
             ctx.sample({"spec": spec, "checked": "all ordered pairs x 2 flags x 3 unknown modes x 5 filters; then unlink sweeps"})
